@@ -42,12 +42,13 @@ var c20Pool = []struct {
 	neg          bool
 }{
 	{"1,234.56", "123456", 2, false},
-	{"-0.75", "075", 2, true},
+	{"-0.750", "0750", 3, true}, // one mark, three decimals, zero integer part: a fraction, not a digit group
 	{"0.000000000001", "0000000000001", 12, false},
 	{"1", "1", 0, false},
 	{"2.50", "250", 2, false},
 	{"-12.345678901234", "12345678901234", 12, true},
 	{"3 000,5", "30005", 1, false},
+	{"-0,125", "0125", 3, true},
 }
 
 func c20PoolAmt(name string, n int, forceComm int) c20Amt {
@@ -251,19 +252,30 @@ func (w *c20World) serve(req int, workspace bool, secondRun bool) (*Server, prot
 	_, _ = s.Initialize(ctx, params)
 	zzNotify(s, func() { _ = s.Initialized(ctx, &protocol.InitializedParams{}) })
 	uri := protocol.DocumentURI("file://" + w.paths[req])
-	zzNotify(s, func() {
-		_ = s.DidOpen(ctx, &protocol.DidOpenTextDocumentParams{TextDocument: protocol.TextDocumentItem{URI: uri, Text: w.contents[req]}})
-	})
-	c20Settle(s, uri, w.contents[req])
-	if secondRun {
+	if !secondRun {
 		zzNotify(s, func() {
-			_ = s.DidChange(ctx, &protocol.DidChangeTextDocumentParams{
-				TextDocument:   protocol.VersionedTextDocumentIdentifier{TextDocumentIdentifier: protocol.TextDocumentIdentifier{URI: uri}},
-				ContentChanges: []protocol.TextDocumentContentChangeEvent{{Text: w.contents[req]}},
-			})
+			_ = s.DidOpen(ctx, &protocol.DidOpenTextDocumentParams{TextDocument: protocol.TextDocumentItem{URI: uri, Text: w.contents[req]}})
 		})
 		c20Settle(s, uri, w.contents[req])
+		return s, uri
 	}
+	// second run: the document is first open with one more transaction on the hovered account,
+	// the account is hovered (whatever the server keeps of that answer is in place), then the
+	// transaction is deleted again; include cache, workspace tree and per-document tree are warm
+	prev := w.contents[req] + "\n2024-01-01 warm\n    a:b  77 USD\n    c:d\n"
+	zzNotify(s, func() {
+		_ = s.DidOpen(ctx, &protocol.DidOpenTextDocumentParams{TextDocument: protocol.TextDocumentItem{URI: uri, Text: prev}})
+	})
+	c20Settle(s, uri, prev)
+	_, _ = s.Hover(ctx, &protocol.HoverParams{TextDocumentPositionParams: protocol.TextDocumentPositionParams{
+		TextDocument: protocol.TextDocumentIdentifier{URI: uri}, Position: protocol.Position{Line: c20AcctLine(prev), Character: 5}}})
+	zzNotify(s, func() {
+		_ = s.DidChange(ctx, &protocol.DidChangeTextDocumentParams{
+			TextDocument:   protocol.VersionedTextDocumentIdentifier{TextDocumentIdentifier: protocol.TextDocumentIdentifier{URI: uri}},
+			ContentChanges: []protocol.TextDocumentContentChangeEvent{{Text: w.contents[req]}},
+		})
+	})
+	c20Settle(s, uri, w.contents[req])
 	return s, uri
 }
 
